@@ -1,5 +1,6 @@
 CONSTANTS
   Stoppers = {"stopws", "monitor", "close"}
+  StartRule = "together"
   CloseRule = "first"
 SPECIFICATION Spec
 INVARIANT NoPanic
